@@ -94,11 +94,12 @@ def tune_time_step(c, target=0.1):
     """dyadic time step (in the script's time unit) such that the fastest channel fires with probability ~target per step"""
     m = max_rate(c["desc"])
     if m <= 0:
-        return
+        return 0
     import math
     dt_si = Fr(target) / m
     dt_script = dt_si / si.SI_TIME[c["units"][1]]
     e = math.floor(math.log2(float(dt_script))) if dt_script > 0 else -8
+    raw = e
     e = max(-60, min(60, e))
     old = c["dt"]
     c["dt"] = 2.0 ** e
@@ -106,6 +107,7 @@ def tune_time_step(c, target=0.1):
     c["t_sample"] = [t * k for t in c["t_sample"]]
     c["t_max"] *= k
     c["interval"] *= k
+    return raw
 
 
 def engine_units(c):
